@@ -91,7 +91,7 @@ impl CaseKind for ChainCase {
         let mut checked = 0;
         for d in depths {
             let h = chain(d, self.pattern);
-            let (out, _) = Interp::new(oracles_for("c11"), 1 << 14).run(&h);
+            let (out, _) = Interp::new(oracles_for("c11"), crate::histcase::dir_budget_for(&h)).run(&h);
             match out {
                 HOutcome::Ok(st) => checked += st.log_entries_checked,
                 HOutcome::Fail(f, _) => return Outcome::fail(&f.kind, format!("{}:chain", f.kind), format!("self-product chain of depth {} (pattern {}): {}", d, self.pattern, f.detail), k.finish(), vec!["kind:chain".into()]),
